@@ -20,14 +20,31 @@ EXTENDS Clover, Json, IOUtils
 Log == ndJsonDeserialize(IOEnv.TRACE_FILE)
 
 VARIABLES l,                    \* next log line
-          pcat, pfiles, popen   \* the state before the last consumed line
+          pcat, pfiles, popen,  \* the state before the last consumed line
+          alt                   \* the database if the operation in flight at a crash took effect
 
-tvars == <<cat, files, open, l, pcat, pfiles, popen>>
+tvars == <<cat, files, open, l, pcat, pfiles, popen, alt>>
 
 TraceInit ==
     /\ Init
     /\ l = 1
     /\ pcat = <<>> /\ pfiles = <<>> /\ popen = TRUE
+    /\ alt = <<>>
+
+HasF(r, k) == k \in DOMAIN r
+Faulted(e) == HasF(e, "fault") /\ e.fault.fired = 1
+InFlight(e) == HasF(e, "inflight")
+
+\* an ordinary call: the specification's own transition
+ConsumeNormal(e, run) ==
+    \* a call during which the store reported a failure: it must fail and change nothing
+    IF Faulted(e) THEN UNCHANGED vars
+    ELSE IF ~open THEN Closed(e)
+    ELSE IF /\ run.res.st = "ok"
+            /\ CanOk(cat, files, e)
+            /\ HintOk(cat, files, e, HintOf(e, run, cat, files))
+         THEN Succeed(e, HintOf(e, run, cat, files))
+         ELSE UNCHANGED vars     \* failed, or not an admissible success (flagged by the invariants)
 
 Consume ==
     /\ l <= Len(Log)
@@ -36,13 +53,19 @@ Consume ==
     /\ LET e   == Log[l]
            run == e.runs[1]
        IN IF e.op = "Reset"
-          THEN cat' = <<>> /\ files' = <<>> /\ open' = TRUE
-          ELSE IF ~open THEN Closed(e)
-          ELSE IF /\ run.res.st = "ok"
-                  /\ CanOk(cat, files, e)
-                  /\ HintOk(cat, files, e, HintOf(e, run, cat, files))
-               THEN Succeed(e, HintOf(e, run, cat, files))
-               ELSE UNCHANGED vars     \* failed, or not an admissible success (flagged below)
+          THEN cat' = <<>> /\ files' = <<>> /\ open' = TRUE /\ alt' = <<>>
+          \* the operation in flight when the process was killed: entirely present or entirely absent
+          ELSE IF InFlight(e)
+          THEN /\ UNCHANGED vars
+               /\ alt' = IF (CanOk(cat, files, e) /\ HintOk(cat, files, e, HintOf(e, run, cat, files)))
+                          THEN NextCat(cat, files, e, HintOf(e, run, cat, files)) ELSE cat
+          \* after the crash: whichever of the two the reopened store shows is the state from now on
+          ELSE IF e.op = "CrashReopen"
+          THEN /\ cat' = IF HasF(run, "audit") /\ HasF(run.audit, "colls") /\ AuditOk(run.audit, alt) THEN alt ELSE cat
+               /\ alt' = cat'
+               /\ UNCHANGED <<files, open>>
+          ELSE /\ ConsumeNormal(e, run)
+               /\ alt' = cat'
 
 TraceNext == Consume
 TraceSpec == TraceInit /\ [][TraceNext]_tvars
@@ -123,6 +146,36 @@ InvAuditKeyIsId == ForRuns(LAMBDA e, r : HasField(r, "audit") => KeyIsIdAuditOk(
 (* C04, invalid-input part: an error leaves the key space as it was        *)
 InvErrNoTrace == ForRuns(LAMBDA e, r :
              (r.res.st = "err" /\ HasField(r, "audit")) => AuditOk(r.audit, pcat))
+
+(* C04: a store failure at any call is reported and leaves no trace; the    *)
+(* handle stays usable (the follow-up writes are ordinary events)          *)
+InvFault == ForRuns(LAMBDA e, r :
+             Faulted(e) => /\ r.res.st = "err"
+                           /\ HasField(r, "audit") => AuditOk(r.audit, cat))
+\* every other call of a fault trace behaves as specified
+InvFaultRest == ForRuns(LAMBDA e, r :
+             ~Faulted(e) => /\ NoPanic(r)
+                            /\ OutcomeOk(e, r, pcat, pfiles)
+                            /\ HasField(r, "audit") => AuditOk(r.audit, cat))
+
+(* C05: every public write is exactly one store transaction, committed once *)
+InvOneTx == ForRuns(LAMBDA e, r :
+             (e.op \in WriteOps /\ HasField(r, "tx") /\ ~Faulted(e) /\ NoPanic(r)) =>
+                /\ r.tx.beginw <= 1 /\ r.tx.commit <= 1
+                \* an effective write is one transaction committed once (a successful no-op need not commit)
+                /\ (r.res.st = "ok" /\ cat # pcat) => r.tx.beginw = 1 /\ r.tx.commit = 1
+                /\ r.res.st = "err" => r.tx.commit = 0)
+
+(* C05: after a process kill every acknowledged operation is present, the   *)
+(* operation in flight is entirely present or entirely absent, and counts,  *)
+(* indexes and catalog are intact without any rebuild                       *)
+InvCrash == (HaveLast /\ Last.op = "CrashReopen") =>
+                \A i \in DOMAIN Last.runs :
+                   /\ HasField(Last.runs[i], "audit") /\ HasField(Last.runs[i].audit, "colls")
+                   /\ AuditOk(Last.runs[i].audit, cat)
+\* acknowledged results of the killed process are the specified ones
+InvCrashAcks == ForRuns(LAMBDA e, r :
+             (r.res.st \in {"ok", "err"} /\ ~InFlight(e) /\ e.op # "CrashReopen") => OutcomeOk(e, r, pcat, pfiles))
 
 (* C05, clean close/reopen part                                            *)
 InvReopen == (HaveLast /\ Last.op = "Reopen") =>
